@@ -241,3 +241,28 @@ func H_C17_option_sequence() {
 	}
 	verif.Reach("end")
 }
+
+// H_C17_sequence: an input the rewrite rejects leaves nothing behind: the
+// next text is rewritten exactly as it is on its own.
+func H_C17_sequence() {
+	bad := []string{"SELECT \"a\" FROM t WHERE s = 'x\\", "SELECT \"a\\", "[1, [2", "SELECT ']' , ]"}[verif.Choose("rejected-input", 4)]
+	which := verif.Choose("function", 2)
+	good := verif.Str("good", 3+verif.Tier(), "\"a [],1")
+	var alone, after string
+	var e0, e1, e2 error
+	if which == 0 {
+		alone, e0 = DoubleQuotesToBackTick(good)
+		_, e1 = DoubleQuotesToBackTick(bad)
+		after, e2 = DoubleQuotesToBackTick(good)
+	} else {
+		alone, e0 = FixIdiomaticArray(good)
+		_, e1 = FixIdiomaticArray(bad)
+		after, e2 = FixIdiomaticArray(good)
+	}
+	_ = e1
+	verif.Assert((e0 == nil) == (e2 == nil), "same-status-after-rejected-input")
+	if e0 == nil && e2 == nil {
+		verif.Assert(alone == after, "same-rewrite-after-rejected-input")
+	}
+	verif.Reach("end")
+}
